@@ -223,26 +223,38 @@ let () =
          let ok = wf_tenv fuel !cur_te in
          Printf.printf "%s\t%s\t%s\n" id (if ok then "ok" else "not-wf") (if ok then "ok" else "not-wf")
        | "hist" :: _ :: rest ->
-         (* hist <RootTarget> <root record> {G id | P id | S id key value}: (togo r) / pass r to a Go method / (hset r key v) *)
+         (* hist <RootTarget> <root record> {G id | P id | M id | S id key value}: (togo r) / pass r to a Go method /
+            call a Go method ON r (implicit conversion when nothing is attached) / (hset r key v) *)
          let te = !cur_te in
          let defs = Hashtbl.create 16 in
          let (root, rest) = parse_value_with defs rest in
          let cur = ref root and heap = ref [] and sh = ref [] in
          let mouts = ref [] and souts = ref [] in
+         (* specification side: records that (per the specification) have a Go object attached by an earlier
+            successful conversion; a method call on such a receiver does not convert again: silent step "~" *)
+         let attached : (z, unit) Hashtbl.t = Hashtbl.create 16 in
+         let rec mark top v = match v with
+           | SRec (i, _, fs) -> if top then Hashtbl.replace attached i (); List.iter (fun (_, x) -> mark true x) fs
+           | SHash (_, fs) -> List.iter (fun (_, x) -> mark true x) fs
+           | SArr l -> List.iter (mark true) l
+           | _ -> () in
          let rec steps toks = match toks with
            | [] -> ()
-           | ("G" | "P" as o) :: id :: more ->
+           | ("G" | "P" | "M" as o) :: id :: more ->
              let idz = z_of_string id in
              (match find_rec idz !cur with
               | Some (SRec (_, tn, _) as r) ->
                 let tname = (match find_reg te tn with Some d -> d.s_name | None -> tn) in
-                (match hist_convert fuel te (o = "G") tname idz r !heap !sh with
+                (match (if o = "M" then hist_receiver fuel te tname idz r !heap !sh
+                        else hist_convert fuel te (o = "G") tname idz r !heap !sh) with
                  | Ok (v, (h', sh')) -> heap := h'; sh := sh'; mouts := ("OK " ^ render_go h' v) :: !mouts
                  | Err | Crash _ -> mouts := "ERR" :: !mouts
                  | OutOfFuel -> mouts := "FUEL" :: !mouts
                  | OutOfModel -> mouts := "OOM" :: !mouts);
-                souts := (match spec_to_go fuel te tname r with
-                          | SOk v -> "OK " ^ render_d v | SErr _ -> "ERR" | SSilent -> "-" | SFuel -> "FUEL") :: !souts
+                souts := (if o = "M" && Hashtbl.mem attached idz then "~"
+                          else match spec_to_go fuel te tname r with
+                            | SOk v -> mark (o <> "P") r; "OK " ^ render_d v
+                            | SErr _ -> "ERR" | SSilent -> "-" | SFuel -> "FUEL") :: !souts
               | _ -> failwith "hist: no such record");
              steps more
            | "S" :: id :: key :: more ->
@@ -254,7 +266,8 @@ let () =
          let ms = String.concat ";" (List.rev !mouts) and ss = String.concat ";" (List.rev !souts) in
          let ms = if List.mem "OOM" !mouts || List.mem "FUEL" !mouts then "OOM" else ms in
          let ss = if List.mem "-" !souts then "-" else ss in
-         Printf.printf "%s\t%s\t%s%s\n" id ms ss (if ms <> ss && ms <> "OOM" && ss <> "-" then "|other" else "")
+         let differs = List.exists2 (fun m s0 -> s0 <> "~" && m <> s0) !mouts !souts in
+         Printf.printf "%s\t%s\t%s%s\n" id ms ss (if differs && ms <> "OOM" && ss <> "-" then "|other" else "")
        | op :: target :: rest ->
          let (r, _) = parse_value rest in
          let t = str_of_string target in
